@@ -161,6 +161,39 @@ func c17InstRun(s c17InstScn) (c17VerObs, []Mon, string) {
 	return obs, mons, cls
 }
 
+// c17TagFlags: u = not in ascending order, p = a pre-release tag, i = a tag that is no semantic
+// version, t = two tags tie (evidence histogram only)
+func c17TagFlags(tags []string) string {
+	f := ""
+	var vs []*semver.Version
+	pre, inv := false, false
+	for _, t := range tags {
+		v, err := semver.NewVersion(t)
+		if err != nil {
+			inv = true
+			continue
+		}
+		pre = pre || v.Prerelease() != ""
+		vs = append(vs, v)
+	}
+	for i := 1; i < len(vs); i++ {
+		if vs[i].LessThan(vs[i-1]) {
+			f = "u"
+			break
+		}
+	}
+	if pre {
+		f += "p"
+	}
+	if inv {
+		f += "i"
+	}
+	if c17HasTies(tags) {
+		f += "t"
+	}
+	return "flags=" + f
+}
+
 func c17InstEmit(c *Ctx, s c17InstScn, prefix string) {
 	s.Kind = "install"
 	if s.Tags == nil {
@@ -168,7 +201,7 @@ func c17InstEmit(c *Ctx, s c17InstScn, prefix string) {
 	}
 	s.Oracle = c17MkOracle(append([]string{s.Con}, s.Tags...))
 	obs, mons, cls := c17InstRun(s)
-	c.Emit(s, obs, mons, prefix+"/install/"+cls)
+	c.Emit(s, obs, mons, prefix+"/install/"+cls+"/"+c17TagFlags(s.Tags))
 }
 
 func c17InstallRandom(c *Ctx) {
@@ -324,7 +357,7 @@ func c17UpdEmit(c *Ctx, s c17UpdScn, prefix string) {
 	strs = append(strs, s.Parents...)
 	s.Oracle = c17MkOracle(strs)
 	obs, mons, cls := c17UpdRun(s)
-	c.Emit(s, obs, mons, prefix+"/update/"+cls)
+	c.Emit(s, obs, mons, prefix+"/update/"+cls+"/"+c17TagFlags(s.Tags))
 }
 
 func c17UpdateRandom(c *Ctx) {
@@ -357,4 +390,35 @@ func c17UpdateRandom(c *Ctx) {
 		s.Installed = Pick(r, s.Tags)
 	}
 	c17UpdEmit(c, s, "rnd")
+}
+
+// exhaustive small scope (thorough tier): every tag list of length <= 3 over a pool with a tie,
+// a pre-release, and a non-semver tag, against a constraint pool; install and update.
+func c17VerExhaustive(c *Ctx) {
+	pool := []string{"1.0.0", "v1.0.0", "1.1.0-rc.1", "1.1.0", "2.0.0", "latest"}
+	var lists [][]string
+	lists = append(lists, []string{})
+	for _, a := range pool {
+		lists = append(lists, []string{a})
+		for _, b := range pool {
+			lists = append(lists, []string{a, b})
+			for _, d := range pool {
+				lists = append(lists, []string{a, b, d})
+			}
+		}
+	}
+	cons := []string{">=1.0.0", "<1.1.0", "^1.0.0", "*", ">1.1.0-rc.0", "not a constraint", c17DigestA}
+	parents := [][]string{{}, {">=1.0.0"}, {"<1.1.0", ">=1.0.0"}, {"<2.0.0", "not a constraint"}, {c17DigestA}}
+	for _, tags := range lists {
+		for _, con := range cons {
+			c17InstEmit(c, c17InstScn{Con: con, Tags: tags}, "exh")
+		}
+		for _, ins := range []string{"1.0.0", "1.1.0-rc.1", "2.0.0", "latest"} {
+			for _, down := range []bool{false, true} {
+				for _, ps := range parents {
+					c17UpdEmit(c, c17UpdScn{Parents: ps, Installed: ins, Down: down, Tags: tags}, "exh")
+				}
+			}
+		}
+	}
 }
